@@ -7,15 +7,17 @@
 From Coq Require Import NArith List Bool String.
 From Verif Require Import Livepatch.Heap Livepatch.Patch Livepatch.Xreload
                           Livepatch.PatchProofs Livepatch.XreloadProofs Livepatch.FrameProofs
-                          Livepatch.ShapeProofs.
+                          Livepatch.ShapeProofs Livepatch.TermProofs.
 Import ListNotations.
 
-(* rollback: the new source raises at any statement index (exec oracle = ExecFail idx h1, whose frame
+(* rollback: the new source raises at any statement index an exception of ANY class exc - the handler is a
+   bare `except:`, so SystemExit / KeyboardInterrupt / GeneratorExit / user BaseException subclasses are
+   included (exec oracle = ExecFail idx exc h1, whose frame
    hypothesis says executing code only wrote objects it allocated): the exception propagates, every
    registry entry and every object that existed before is unchanged *)
-Theorem C16_rollback : forall bases_ok nm fuel w name module scratch kl mt idx h1,
+Theorem C16_rollback : forall bases_ok nm fuel w name module scratch kl mt idx exc h1,
   (forall a, In a (dom (wheap w)) -> lookup h1 a = lookup (wheap w) a) ->
-  let r := xreload bases_ok nm fuel w name module scratch kl mt (ExecFail idx h1) in
+  let r := xreload bases_ok nm fuel w name module scratch kl mt (ExecFail idx exc h1) in
   snd r = Raise /\
   (forall n, aget (wreg (fst r)) n = aget (wreg w) n) /\
   (forall a, In a (dom (wheap w)) -> lookup (wheap (fst r)) a = lookup (wheap w) a).
@@ -60,13 +62,13 @@ Proof. exact identity_kept_function. Qed.
 Print Assumptions C16_identity_kept_partial.
 
 (* ... and it carries the new code, defaults and doc (for nested calls that leave it alone) *)
-Theorem C16_identity_kept_fields : forall (rec : recT) s stack fo fn n1 m1 c1 d1 doc1 fd1 cl1 fv1 n2 m2 c2 d2 doc2 fd2 cl2 fv2 s' a,
-  lookup (hp s) fo = Some (OFunc n1 m1 c1 d1 doc1 fd1 cl1 fv1) ->
-  lookup (hp s) fn = Some (OFunc n2 m2 c2 d2 doc2 fd2 cl2 fv2) ->
-  func_compatible (hp s) (OFunc n1 m1 c1 d1 doc1 fd1 cl1 fv1) (OFunc n2 m2 c2 d2 doc2 fd2 cl2 fv2) = true ->
+Theorem C16_identity_kept_fields : forall (rec : recT) s stack fo fn n1 m1 c1 d1 kd1 doc1 an1 fd1 cl1 fv1 n2 m2 c2 d2 kd2 doc2 an2 fd2 cl2 fv2 s' a,
+  lookup (hp s) fo = Some (OFunc n1 m1 c1 d1 kd1 doc1 an1 fd1 cl1 fv1) ->
+  lookup (hp s) fn = Some (OFunc n2 m2 c2 d2 kd2 doc2 an2 fd2 cl2 fv2) ->
+  func_compatible (hp s) (OFunc n1 m1 c1 d1 kd1 doc1 an1 fd1 cl1 fv1) (OFunc n2 m2 c2 d2 kd2 doc2 an2 fd2 cl2 fv2) = true ->
   (forall s0 st x y s1 r, rec s0 st x y = Ok s1 r -> lookup (hp s1) fo = lookup (hp s0) fo) ->
   patch_function rec s stack fo fn = Ok s' a ->
-  lookup (hp s') fo = lookup (update (hp s) fo (OFunc n1 m1 c2 d2 doc2 fd1 cl1 fv1)) fo.
+  lookup (hp s') fo = lookup (update (hp s) fo (OFunc n1 m1 c2 d2 kd2 doc2 an2 fd1 cl1 fv1)) fo.
 Proof. exact patch_function_fields. Qed.
 Print Assumptions C16_identity_kept_fields.
 
@@ -118,28 +120,45 @@ Theorem C16_module_dunders_partial : forall modname newmod_dict bases_ok nm fuel
 Proof. exact module_dunders. Qed.
 Print Assumptions C16_module_dunders_partial.
 
+(* termination with fuel = heap size: the visit stack holds distinct heap addresses and grows with every
+   nested call, nothing is allocated; fuel > |heap| suffices at top level (the harness runs the model with
+   fuel = |heap| + 1), and in general fuel + |visit stack| > |heap| *)
+Theorem C16_termination : forall modname newmod_dict bases_ok nm h m_old m_new fuel,
+  List.length (dom h) < fuel ->
+  livepatch_module modname newmod_dict bases_ok nm fuel h m_old m_new <> OutOfFuel /\
+  forall s' r, livepatch_module modname newmod_dict bases_ok nm fuel h m_old m_new = Ok s' r ->
+               dom (hp s') = dom h.
+Proof. exact termination. Qed.
+Print Assumptions C16_termination.
+
+Theorem C16_termination_nested : forall modname newmod_dict bases_ok nm fuel s stack old new,
+  NoDup stack -> incl stack (dom (hp s)) -> List.length (dom (hp s)) < fuel + List.length stack ->
+  lp modname newmod_dict bases_ok nm fuel s stack old new <> OutOfFuel.
+Proof. exact termination_nested. Qed.
+Print Assumptions C16_termination_nested.
+
 (* non-vacuity: a two-function module (f kept and re-coded, g replaced because its cell value differs,
    h deleted, k added) patched by the model *)
 Definition nv_heap : heap :=
   [ (1, OModule 3); (2, OModule 4);
     (3, ODict [(20, 10); (21, 11); (22, 12)]);              (* old: f, g, h *)
     (4, ODict [(20, 13); (21, 14); (23, 15)]);              (* new: f, g, k *)
-    (10, OFunc 20 (Some 9) 100 101 102 50 [] []);
-    (11, OFunc 30 (Some 9) 103 101 102 51 [104] [31]);
-    (12, OFunc 22 (Some 9) 105 101 102 52 [] []);
-    (13, OFunc 20 (Some 9) 200 101 102 53 [] []);
-    (14, OFunc 30 (Some 9) 103 101 102 54 [204] [31]);
-    (15, OFunc 23 (Some 9) 205 101 102 55 [] []);
+    (10, OFunc 20 (Some 9) 100 101 101 102 102 50 [] []);
+    (11, OFunc 30 (Some 9) 103 101 101 102 102 51 [104] [31]);
+    (12, OFunc 22 (Some 9) 105 101 101 102 102 52 [] []);
+    (13, OFunc 20 (Some 9) 200 101 101 102 102 53 [] []);
+    (14, OFunc 30 (Some 9) 103 101 101 102 102 54 [204] [31]);
+    (15, OFunc 23 (Some 9) 205 101 101 102 102 55 [] []);
     (50, ODict []); (51, ODict []); (52, ODict []); (53, ODict []); (54, ODict []); (55, ODict []);
     (100, OPrim 5 1); (101, OPrim 6 2); (102, OPrim 6 2); (103, OPrim 5 3); (105, OPrim 5 4);
     (200, OPrim 5 5); (205, OPrim 5 6); (104, OPrim 7 31); (204, OPrim 7 32) ]%N.
 
 Example C16_nonvacuous :
-  match livepatch_module 9%N 4%N (fun _ _ => true) (mkNames 90 91 92 93)%N 30 nv_heap 1%N 2%N with
+  match livepatch_module 9%N 4%N (fun _ _ => true) (mkNames 90 91 92 93)%N (S (List.length nv_heap)) nv_heap 1%N 2%N with
   | Ok s r =>
       r = 1%N /\
       lookup (hp s) 3%N = Some (ODict [(20, 10); (21, 14); (23, 15)])%N /\      (* f kept, g replaced, h gone, k new *)
-      lookup (hp s) 10%N = Some (OFunc 20 (Some 9) 200 101 102 50 [] [])%N       (* f has the new code *)
+      lookup (hp s) 10%N = Some (OFunc 20 (Some 9) 200 101 101 102 102 50 [] [])%N       (* f has the new code *)
   | _ => False
   end.
 Proof. vm_compute. repeat split. Qed.
